@@ -95,7 +95,15 @@ ColAtoms == { A1(p[1], op, ColL(p[2]), "colcol/" \o op) : p \in ColPairs, op \in
        \cup { A1("name", op, ColL("ext"), "colcol/text/" \o op) : op \in {"eeq", "ene"} }
        \cup { A1("is_dir", op, ColL("user_exec"), "colcol/bool/" \o op) : op \in {"eq", "ne"} }
 
-Atoms == IntAtomSet \cup BetweenAtoms \cup TextAtoms \cup KeywordAtoms \cup PatAtoms \cup BoolAtoms \cup DateAtoms \cup ColAtoms
+(* every documented alias of every operator, on a value that lies on the boundary (size 10) resp. on a name *)
+NumAliases == { <<"eq", "==">>, <<"eq", "eq">>, <<"ne", "<>">>, <<"ne", "ne">>, <<"gt", "gt">>, <<"gte", "gte">>, <<"gte", "ge">>, <<"lt", "lt">>,
+                <<"lte", "lte">>, <<"lte", "le">>, <<"eeq", "eeq">>, <<"ene", "ene">> }
+TextAliases == { <<"rx", "~=">>, <<"rx", "regexp">>, <<"rx", "rx">>, <<"notrx", "!~=">>, <<"notrx", "notrx">> }
+AliasAtoms == { A1("size", p[1], IntL(10), "alias/" \o p[2]) @@ [spell |-> p[2]] : p \in NumAliases }
+         \cup { A1("hardlinks", p[1], IntL(2), "alias/" \o p[2]) @@ [spell |-> p[2]] : p \in NumAliases }
+         \cup { A1("name", p[1], RxL(<<"t","x","t">>, FALSE, TRUE), "alias/" \o p[2]) @@ [spell |-> p[2]] : p \in TextAliases }
+         \cup { A1("name", "notlike", TextL(<<"%",".","t","x","t">>), "alias/notlike") @@ [spell |-> "notlike"] }
+Atoms == IntAtomSet \cup BetweenAtoms \cup TextAtoms \cup KeywordAtoms \cup PatAtoms \cup BoolAtoms \cup DateAtoms \cup ColAtoms \cup AliasAtoms
 
 Init == atom = NoAtom /\ phase = "start"
 Next == phase = "start" /\ atom' \in Atoms /\ phase' = "done"
